@@ -52,7 +52,7 @@ FAMILIES_QUICK = [("edits", 3), ("alias", 3), ("shift", 2), ("tamper", 3), ("dir
 FAMILIES_THOROUGH = [(f, n * 18) for f, n in FAMILIES_QUICK]
 
 # round-c families (generators in _hist2.py)
-FAMILIES2_QUICK = [("platform", 5, {}), ("samestamp", 2, {}), ("swapdep", 2, {})]
+FAMILIES2_QUICK = [("platform", 4, {}), ("samestamp", 1, {}), ("swapdep", 1, {})]
 GEN2 = {"platform": H2.gen_platform, "samestamp": H2.gen_samestamp, "swapdep": H2.gen_swapdep}
 
 
